@@ -1130,6 +1130,43 @@ func checkEffectiveProperty1(c *Ctx, rule string, fn *ssa.Function, keyPkg, keyV
 				}
 			}
 		}
+		if !ok {
+			// or a helper handed both: it answers with the default (or what was derived from it) where the own value is nil
+			eachInstr(fn, func(in ssa.Instruction) {
+				call, isCall := in.(*ssa.Call)
+				if !isCall || ok {
+					return
+				}
+				h := call.Call.StaticCallee()
+				if h == nil || h.Blocks == nil || !inModule(h) || len(call.Call.Args) != len(h.Params) {
+					return
+				}
+				oi, di := -1, -1
+				for k, a := range call.Call.Args {
+					if derivesFromCall(a, o, 0) {
+						oi = k
+					} else if derivesFromCall(a, def, 0) {
+						di = k
+					}
+				}
+				if oi < 0 || di < 0 {
+					return
+				}
+				for _, ret := range returnsOf(h) {
+					for _, rv := range results(ret) {
+						if !derivesFrom(rv, h.Params[di], 0) {
+							continue
+						}
+						for _, cf := range dominatingConds(ret.Block()) {
+							e, nn, isT := nilTest(cf.Cond)
+							if isT && (e == ssa.Value(h.Params[oi]) || derivesFrom(e, h.Params[oi], 0)) && (nn == 1) == cf.Val {
+								ok = true
+							}
+						}
+					}
+				}
+			})
+		}
 		r.Check(rule, FuncName(fn), fmt.Sprintf("per-column %s read #%d: own setting, else the column-0 default", keyVar, i+1), o.Pos(), ok, "the default is read but not used where the column's own value is nil")
 	}
 }
@@ -1168,6 +1205,15 @@ func derivesFromCall(v ssa.Value, call *ssa.Call, depth int) bool {
 		return derivesFromCall(x.X, call, depth+1)
 	case *ssa.ChangeInterface:
 		return derivesFromCall(x.X, call, depth+1)
+	case *ssa.Call:
+		// a module helper that interprets the raw value (assertion to the property's type, with a fallback)
+		if h := x.Call.StaticCallee(); h != nil && inModule(h) && h.Blocks != nil {
+			for _, a := range x.Call.Args {
+				if derivesFromCall(a, call, depth+1) {
+					return true
+				}
+			}
+		}
 	}
 	return false
 }
